@@ -784,7 +784,9 @@ impl<'tcx> Ex<'tcx> {
                                 statics.push((self.id(did), j));
                             }
                         }
-                    } else if !(t.is_integral() || t.is_bool()) && !matches!(t.kind(), ty::Array(..)) {
+                    } else if !(t.is_integral() || t.is_bool() || t.is_floating_point())
+                        && !matches!(t.kind(), ty::Array(..))
+                    {
                         // small non-scalar constants (SIMD masks): raw bytes
                         if let Ok(cv) = tcx.const_eval_poly(did) {
                             if let mir::ConstValue::Indirect { alloc_id, offset } = cv {
@@ -802,7 +804,7 @@ impl<'tcx> Ex<'tcx> {
                                 }
                             }
                         }
-                    } else if t.is_integral() || t.is_bool() {
+                    } else if t.is_integral() || t.is_bool() || t.is_floating_point() {
                         if let Ok(mir::ConstValue::Scalar(Scalar::Int(si))) = tcx.const_eval_poly(did) {
                             statics.push((
                                 self.id(did),
